@@ -303,7 +303,7 @@ static void SwitchTo_16C5X(void) {
     }
     Grans[SegData]     = 1;
     ListGrans[SegData] = 1;
-    SegInits[SegCode]  = 0;
+    SegInits[SegData]  = 0;
     SegLimits[SegData] = 0x1f;
 
     MakeCode   = MakeCode_16C5X;
